@@ -116,6 +116,20 @@ Definition f_mut (k : opk) (p p2 : path) (eff : fs -> option fs) (part : nat -> 
   | Some _ => fail
   end.
 
+(* rm under `except FileNotFoundError: pass`: a missing path, or an injected
+   FileNotFoundError, counts as done *)
+Definition f_rm (p : path) : M fstate unit :=
+  ft <- tick KRm p [] ;;
+  match ft with
+  | None => f <- get_fs ;; if exists_b f p then (f' <- of_option (rm f p) ;; put_fs f') else ret tt
+  | Some FNotFound => ret tt
+  | Some FAfter =>
+      f <- get_fs ;;
+      if exists_b f p then (f' <- of_option (rm f p) ;; put_fs f' ;;; fail) else ret tt
+  | Some (FPartial n) => f <- get_fs ;; put_fs (rm_partial f p n) ;;; fail
+  | Some _ => fail
+  end.
+
 Definition f_read (p : path) : M fstate content :=
   ft <- tick KOpenR p [] ;;
   match ft with
@@ -139,7 +153,7 @@ Definition faulty_prims : prims fstate := {|
   p_ls := f_ls;
   p_find := f_find;
   p_makedirs := fun p => f_mut KMakedirs p [] (fun f => makedirs f p) (fun _ f => makedirs_partial f p);
-  p_rm := fun p => f_mut KRm p [] (fun f => rm f p) (fun n f => rm_partial f p n);
+  p_rm := f_rm;
   p_write := fun p c =>
     f_mut KOpenW p [] (fun f => write f p c)
           (fun _ f => match write f p CPartial with Some f' => f' | None => f end);
